@@ -13,20 +13,22 @@ EXTENDS Integers, Sequences, FiniteSets, TLC
 CONSTANTS Caps,         \* buffer sizes in bytes (bufferSize) tried; cap is chosen at Init
           MaxN,         \* largest size argument tried
           MaxTotal,     \* bound on accepted bytes (keeps the exhaustive model finite)
-          DiscardRewinds \* TRUE = as the code is: DiscardStride sets r := w - w % s even when that is < r
+          DiscardRewinds, \* TRUE = as the code is: DiscardStride sets r := w - w % s even when that is < r
+          MaxCreates,     \* how often a new writer calls Create on regions a previous writer left behind (no Unlink)
+          CreateKeepsPointers \* deviation (FALSE = as the code is): Create does not zero the pointers it finds in the descriptor
 
-VARIABLES cap, w, r, mem, \* implementation
+VARIABLES cap, w, r, mem, ncr, \* implementation (ncr: Create calls so far)
           acc, nxt,     \* property layer: bytes accepted so far; global index the next read must start at
           bad,          \* set of property predicates violated by the last step
           act           \* output only: last action (excluded from VIEW)
 
-vars == <<cap, w, r, mem, acc, nxt, bad, act>>
+vars == <<cap, w, r, mem, ncr, acc, nxt, bad, act>>
 
 Min(a, b) == IF a < b THEN a ELSE b
 Max(a, b) == IF a > b THEN a ELSE b
 
 Init == /\ cap \in Caps /\ w = 0 /\ r = 0 /\ mem = [i \in 0..(cap-1) |-> -1]
-        /\ acc = 0 /\ nxt = 0 /\ bad = {} /\ act = [op |-> "Create", cap |-> cap]
+        /\ acc = 0 /\ nxt = 0 /\ bad = {} /\ act = [op |-> "Create", cap |-> cap] /\ ncr = 1
 
 \* ---------------------------------------------------------------- implementation layer
 Avail == cap - (w - r + 1)
@@ -83,12 +85,24 @@ DiscardStride(s) ==
   /\ act' = [op |-> "Discard", n |-> s, rp |-> newR, wp |-> w]
   /\ UNCHANGED <<w, mem, acc>>
 
-Next == /\ UNCHANGED cap
-        /\ \/ \E n \in 0..MaxN : Write(n)
-           \/ \E n \in 0..MaxN : Read(n)
-           \/ ReadAll
-           \/ \E c \in 1..MaxN : ReadMultipleOf(c)
-           \/ \E s \in 1..MaxN : DiscardStride(s)
+\* A writer that went away without Unlink leaves both shared-memory regions behind; the next writer's Create opens them
+\* (O_CREATE without O_EXCL / O_TRUNC), resizes them and must start from an empty ring whatever it finds there.
+Recreate(c) ==
+  /\ ncr < MaxCreates /\ ncr' = ncr + 1
+  /\ cap' = c
+  /\ mem' = [i \in 0..(c-1) |-> IF i < cap THEN mem[i] ELSE -1]      \* Ftruncate keeps the old content
+  /\ w' = (IF CreateKeepsPointers THEN w ELSE 0) /\ r' = (IF CreateKeepsPointers THEN r ELSE 0)
+  /\ acc' = 0 /\ nxt' = 0                                            \* the new ring's history starts here
+  /\ bad' = (IF w' # r' THEN {"C18_fresh_empty"} ELSE {})
+  /\ act' = [op |-> "Recreate", cap |-> c]
+
+Ops == \/ \E n \in 0..MaxN : Write(n)
+       \/ \E n \in 0..MaxN : Read(n)
+       \/ ReadAll
+       \/ \E c \in 1..MaxN : ReadMultipleOf(c)
+       \/ \E s \in 1..MaxN : DiscardStride(s)
+Next == \/ \E c \in Caps : Recreate(c)
+        \/ (UNCHANGED <<cap, ncr>> /\ Ops)
 
 Spec == Init /\ [][Next]_vars
 
@@ -100,5 +114,5 @@ Holds   == \A g \in r..(w-1) : mem[g % cap] = g
 Ghost   == /\ acc = w /\ nxt = r
 FullEmptyReachable == TRUE
 
-View == <<cap, w, r, mem, acc, nxt, bad>>
+View == <<cap, w, r, mem, ncr, acc, nxt, bad>>
 =============================================================================
